@@ -57,6 +57,7 @@ fn main() {
         "c02-chunk" => { let lo = count; let hi: usize = outdir.parse().unwrap(); c02::run_chunk(seed, lo, hi); 0 }
         "c03" => c03::run(seed, count, &outdir).unwrap(),
         "c04-demo" => { c04::demo(); 0 }
+        "c08-demo" => { c08::demo(); 0 }
         "c04" => c04::run(seed, count, &outdir, args.get(5).map(|s| s == "jit").unwrap_or(false)).unwrap(),
         _ => { eprintln!("usage: fv <cmd> <seed> <count> <outdir> [budgets]"); 2 }
     };
